@@ -98,8 +98,17 @@ def main():
 
     def do_call(call):
         inputs = {n: C.tensor_from_stored(tuple(t["dims"]), t["fmt"], t["stored"]) for n, t in call["inputs"].items()}
-        fn = evaluate_cffi if call["backend"] == "cffi" else evaluate_tensora
-        res = fn(call["assignment"], call["out_fmt"], **inputs)
+        if call.get("entry") == "method":
+            # a compiled tensor method obtained through tensor_method() and called directly
+            from tensora import BackendCompiler, tensor_method
+
+            target = call["assignment"].split("(", 1)[0].strip()
+            fm = {target: call["out_fmt"], **{n: t["fmt"] for n, t in call["inputs"].items()}}
+            method = tensor_method(call["assignment"], fm, BackendCompiler[call["backend"]])
+            res = method(**inputs)
+        else:
+            fn = evaluate_cffi if call["backend"] == "cffi" else evaluate_tensora
+            res = fn(call["assignment"], call["out_fmt"], **inputs)
         return C.raw_of_tensor(res)
 
     def safe_call(call):
